@@ -459,6 +459,70 @@ Proof.
   - apply IH.
 Qed.
 
+Lemma join2_inside : forall d n, name_ok n -> insideDir d (join2 d n).
+Proof.
+  intros d n Hok. destruct (name_stays_in_dir d n Hok) as [_ [Hc [Hd Hb]]].
+  exists n. split; [exact Hok | split; [reflexivity | split; [exact Hc | split; [exact Hd | exact Hb]]]].
+Qed.
+
+Lemma metadataFileName_ok : forall a b d1 d2, Forall byte_ok d1 -> Forall byte_ok d2 ->
+  name_ok (metadataFileName a b d1 d2).
+Proof.
+  intros a b d1 d2 H1 H2. unfold metadataFileName.
+  apply name_ok_app; [apply PathOr_ok; apply name_okb_ok; reflexivity|].
+  apply tail_ok_prepend; [apply name_ok_bytes; apply name_okb_ok; reflexivity|].
+  apply tail_ok_prepend; [apply name_ok_bytes; apply PathOr_ok; apply name_okb_ok; reflexivity|].
+  apply tail_ok_prepend; [apply name_ok_bytes; apply name_okb_ok; reflexivity|].
+  apply tail_ok_prepend; [exact H1|].
+  apply tail_ok_prepend; [apply name_ok_bytes; apply name_okb_ok; reflexivity|].
+  apply tail_ok_prepend; [exact H2|].
+  apply tail_okb_ok. reflexivity.
+Qed.
+
+(* split along bookmarks: whatever the titles and whichever writes fail, every part written is
+   Join(outDir, sanitize(title)+".pdf") (or bookmark_N.pdf), a direct child of outDir *)
+Lemma bookmarkPaths_inside : forall d titles i, Forall (insideDir d) (bookmarkPathsFrom d i titles).
+Proof.
+  intros d titles. induction titles as [|t rest IH]; intro i; simpl; constructor.
+  - apply join2_inside. apply bookmarkFileName_ok.
+  - apply IH.
+Qed.
+
+Lemma splitBookmarks_prefix : forall fails d titles i,
+  let r := splitBookmarksFrom fails d i titles in
+  fst r = firstn (length (fst r)) (bookmarkPathsFrom d i titles) /\
+  (snd r = true -> fst r = bookmarkPathsFrom d i titles) /\
+  Forall (fun p => fails p = false) (fst r).
+Proof.
+  intros fails d titles. induction titles as [|t rest IH]; intro i; simpl.
+  - split; [reflexivity | split; [reflexivity | constructor]].
+  - destruct (fails (join2 d (bookmarkFileName i t))) eqn:Ef; simpl.
+    + split; [reflexivity | split; [discriminate | constructor]].
+    + destruct (IH (i + 1)) as [H1 [H2 H3]]. split; [|split].
+      * f_equal. exact H1.
+      * intro Hk. f_equal. apply H2. exact Hk.
+      * constructor; assumption.
+Qed.
+
+Lemma Forall_firstn : forall {A} (P : A -> Prop) k l, Forall P l -> Forall P (firstn k l).
+Proof.
+  intros A P k. induction k as [|k IH]; intros l H; simpl; [constructor|].
+  destruct l as [|x t]; [constructor|]. inversion H; subst. constructor; [assumption | apply IH; assumption].
+Qed.
+
+Lemma splitAlongBookmarks_inside : forall fails d titles,
+  let r := splitAlongBookmarks fails d titles in
+  Forall (insideDir d) (fst r) /\
+  fst r = firstn (length (fst r)) (bookmarkPathsFrom d 0 titles) /\
+  (snd r = true -> fst r = bookmarkPathsFrom d 0 titles) /\
+  Forall (fun p => fails p = false) (fst r).
+Proof.
+  intros fails d titles r. unfold r, splitAlongBookmarks.
+  destruct (splitBookmarks_prefix fails d titles 0) as [H1 [H2 H3]].
+  split; [|split; [exact H1 | split; [exact H2 | exact H3]]].
+  rewrite H1. apply Forall_firstn. apply bookmarkPaths_inside.
+Qed.
+
 (* ------------------------------------------------------------------ reservation protocol *)
 Lemma memb_In : forall p fs, memb p fs = true <-> In p fs.
 Proof.
